@@ -295,7 +295,20 @@ def scenarios(rng, n):
                 r.append(["free", nv])
                 nv += 1
             return r
-        if i % 2 == 0:
+        if i % 5 == 4:
+            # order promises the host made itself and then rejects: the next suspension reports their ids as cancelled
+            ops.append(["prepare", 0, "import { order } from 'tsrun:host'; const r = await order({q: 1}); 1", None])
+            ops.append(["run", 0])
+            nv += 1
+            k = rng.randint(1, 4)
+            for j in range(k):
+                ops.append(["opromise", 0, 7 + j])
+                ops.append(["reject", 0, nv, rng.choice(["no", None])])
+                nv += 1
+                ops += churn_ops(rng.choice([0, 1]))
+            ops.append([rng.choice(["run", "step"]), 0, 5000])
+            out.append((ops, len(ops) - 1, "suspended::%d" % k))
+        elif i % 2 == 0:
             regs = rng.randint(1, 3)
             last = None
             for r in range(regs):
@@ -356,7 +369,8 @@ def run(ctx):
         res = g.split(SEP_OP)
         have = res[at] if at < len(res) else g[:80]
         if have != want:
-            ctx.prop_fail("contents: a value provided by the host did not reach the script intact (script result %s, expected %s)" % (have[:80], want[:80]),
+            ctx.prop_fail(("abort: the call sequence killed the process (%s, expected %s)" if have.startswith(("CRASH", "PANIC", "TIMEOUT")) else
+                           "contents: a value provided by the host did not reach the script intact (script result %s, expected %s)") % (have[:80], want[:80]),
                           {"ops_without_churn": [o for o in ops if o[0] not in ("obj", "free")][:40], "churn_pairs": sum(1 for o in ops if o[0] == "obj"), "impl": have[:200]})
     nd = 300 if ctx.tier == "quick" else 5000
     nf = 150 if ctx.tier == "quick" else 2500
@@ -396,7 +410,7 @@ def run(ctx):
         distinct.add(g[:200])
     # ---- everything under memcheck
     vg = shutil.which("valgrind")
-    allseq = hl + [json.dumps(o) for o in full] + [json.dumps(o) for o, _, _ in ksc]
+    allseq = hl + [json.dumps(o) for o in full] + [json.dumps(o) for o, _, _ in ksc] + [json.dumps(o) for o, _, _ in scen if len(o) < 300]
     if vg:
         chunks = [allseq[i::16] for i in range(16)]
         from concurrent.futures import ThreadPoolExecutor
@@ -427,6 +441,8 @@ def run(ctx):
                 ctx.prop_fail("memcheck: valgrind reports an invalid memory access / the process died (rc=%s)" % pr.returncode,
                               {"valgrind": err[:3500], "sequence_if_crashed": json.loads(bad)[:300] if bad else None, "sequences_in_chunk": len(ch)})
             for l, src in zip(lines, ch):
+                if "STALE-FIELDS" in l:
+                    ctx.prop_fail("release: tsrun_step_result_free left a pointer or a count in the released step result (a second release, or a read through it, reaches freed memory)", {"ops": json.loads(src)[:300], "impl": l[:300]})
                 if "INVALID-UTF8" in l or "!len" in l:
                     ctx.prop_fail("string: a returned string is not valid NUL-terminated UTF-8 of the reported length", {"ops": json.loads(src)[:300], "impl": l[:300]})
                 distinct.add(l[:120])
